@@ -146,8 +146,9 @@ Fixpoint best_parent (p : path) (ds : list dobj) (best : option dobj) : option d
       else best_parent p ds' best
   end.
 
+(* in-place mutation of the listed object with that path (listed paths are unique: add refuses duplicates) *)
 Definition replace_dir (nd : dobj) (ds : list dobj) : list dobj :=
-  map (fun d => if Nat.eqb (did d) (did nd) then nd else d) ds.
+  map (fun d => if eqb_path (dpath d) (dpath nd) then nd else d) ds.
 
 (* set union of Python sets of items ("a |= b"): elements of a are kept, b's added when not equal to one present *)
 Fixpoint union_eq (a b : list item) : list item :=
@@ -406,3 +407,60 @@ Definition get_stats (s : state) : nat * nat :=
 Definition obs_item (s : state) (friends : list str) (user : str) (x : item) : path * str * bool :=
   (abs_path x, qpath x, match user with [] => false | _ => item_locked s friends user x end).
 Definition listed_items (s : state) : list item := flat_map ditems (listed s).
+
+(* ---------------------------------------------------------------- support for the generated case files *)
+
+Definition obs := (path * str * bool)%type.
+Definition eqb_obs (a b : obs) : bool :=
+  eqb_path (fst (fst a)) (fst (fst b)) && eqb_str (snd (fst a)) (snd (fst b)) && Bool.eqb (snd a) (snd b).
+Definition subset_obs (a b : list obs) : bool := forallb (fun x => existsb (eqb_obs x) b) a.
+Definition same_obs (a b : list obs) : bool := Nat.eqb (length a) (length b) && subset_obs a b && subset_obs b a.
+
+(* one query observed on the implementation: visible+locked results as obs *)
+Record qcheck := mkQ { c_query : str; c_user : str; c_friends : list str; c_phrases : list str; c_max : nat; c_result : list obs }.
+Definition check_query (s : state) (c : qcheck) : bool :=
+  let all := map (obs_item s (c_friends c) (c_user c)) (query_all s (parse (c_query c)) (c_phrases c)) in
+  if (length all <=? c_max c)%nat then same_obs all (c_result c)
+  else Nat.eqb (length (c_result c)) (c_max c) && subset_obs (c_result c) all.
+
+(* the index observed on the implementation: per listed directory its path and items (abs path, query path, owner alias),
+   the term map keys, the number of items in the union of the weak sets, get_stats() *)
+Definition iobs := (path * str * str)%type.
+Definition eqb_iobs (a b : iobs) : bool :=
+  eqb_path (fst (fst a)) (fst (fst b)) && eqb_str (snd (fst a)) (snd (fst b)) && eqb_str (snd a) (snd b).
+Definition same_iobs (a b : list iobs) : bool :=
+  Nat.eqb (length a) (length b) && forallb (fun x => existsb (eqb_iobs x) b) a && forallb (fun x => existsb (eqb_iobs x) a) b.
+Definition owner_alias (s : state) (x : item) : str :=
+  match find_obj s (oid x) with Some d => dalias d | None => [] end.
+Definition dir_obs (s : state) (d : dobj) : list iobs := map (fun x => (abs_path x, qpath x, owner_alias s x)) (ditems d).
+Fixpoint same_dirs (s : state) (ds : list dobj) (e : list (path * list iobs)) : bool :=
+  match ds, e with
+  | [], [] => true
+  | d :: ds', (p, its) :: e' => eqb_path (dpath d) p && same_iobs (dir_obs s d) its && same_dirs s ds' e'
+  | _, _ => false
+  end.
+Definition same_strs (a b : list str) : bool :=
+  Nat.eqb (length a) (length b) && forallb (fun x => mem_str x b) a && forallb (fun x => mem_str x a) b.
+Record icheck := mkI { i_dirs : list (path * list iobs); i_keys : list str; i_nindexed : nat; i_stats : nat * nat }.
+Definition check_index (s : state) (c : icheck) : bool :=
+  same_dirs s (listed s) (i_dirs c) && same_strs (keys s) (i_keys c) && Nat.eqb (length (indexed s)) (i_nindexed c)
+  && Nat.eqb (fst (get_stats s)) (fst (i_stats c)) && Nat.eqb (snd (get_stats s)) (snd (i_stats c)).
+
+Inductive hstep := HOp (o : op) | HQuery (c : qcheck) | HIndex (c : icheck).
+(* numbers (positions in the history) of the checks that fail *)
+Fixpoint run_history (s : state) (n : nat) (h : list hstep) : list nat :=
+  match h with
+  | [] => []
+  | HOp o :: r => run_history (step s o) (S n) r
+  | HQuery c :: r => (if check_query s c then [] else [n]) ++ run_history s (S n) r
+  | HIndex c :: r => (if check_index s c then [] else [n]) ++ run_history s (S n) r
+  end.
+
+(* regex engine vs term_occurs: expected bit i of the mask <-> the pattern matched path i *)
+Definition occ_mask (w : bool) (t : str) (ps : list str) : N :=
+  fold_right (fun p acc => (2 * acc + (if term_occurs w t p then 1 else 0))%N) 0%N ps.
+Fixpoint bad_masks (ps : list str) (n : nat) (l : list (bool * str * N)) : list nat :=
+  match l with
+  | [] => []
+  | (w, t, m) :: r => (if N.eqb (occ_mask w t ps) m then [] else [n]) ++ bad_masks ps (S n) r
+  end.
